@@ -11,7 +11,7 @@ HOME = os.environ.get("SEEDED_HOME", "/verif")
 if REPO != "/repo":
     os.environ["VERIF_REPO"] = REPO
 def sh(cmd, cwd=None):
-    return subprocess.run(cmd, shell=True, cwd=cwd, capture_output=True, text=True)
+    return subprocess.run(cmd, shell=True, cwd=cwd, capture_output=True, text=True, errors="replace")
 if sh("git status --porcelain", REPO).stdout.strip():
     raise SystemExit("/repo is dirty, refusing")
 p = sh("git apply %s/patch.diff" % d, REPO)
